@@ -222,6 +222,14 @@ func (l *Lexer) readString(sep byte) (string, bool) {
 				ch = '\n'
 			case 't':
 				ch = '\t'
+			case 'a': // the remaining single character escapes that strconv.Quote (used to print strings) emits.
+				ch = '\a'
+			case 'b':
+				ch = '\b'
+			case 'f':
+				ch = '\f'
+			case 'v':
+				ch = '\v'
 			case 'u':
 				buf.WriteRune(l.readUnicode16())
 				continue
